@@ -152,6 +152,7 @@ class Stats:
         self.harness_errors = []
         self.samples = []
         self.timeouts = 0
+        self.sets = {}             # name -> set of strings (union over runs), e.g. interleaving pairs
         self.records = {}          # idx -> per-run record (only with VERIF_RECORD=1: determinism self-test)
 
     def add_run(self, idx, seed, spec, res, check):
@@ -162,6 +163,8 @@ class Stats:
                                  digest_of(res.get('counters')), digest_of(res.get('sample'))]
         for k, v in (res.get('counters') or {}).items():
             self.counters[k] += v
+        for k, vals in (res.get('sets') or {}).items():
+            self.sets.setdefault(k, set()).update(vals)
         d = res.get('digest') or digest_of(spec)
         self.digests.add(d)
         if res.get('nontrivial'):
@@ -191,6 +194,8 @@ class Stats:
                 self.samples.append(s)
         self.timeouts += o.timeouts
         self.records.update(o.records)
+        for k, vals in o.sets.items():
+            self.sets.setdefault(k, set()).update(vals)
 
 
 _CHECK = None   # set in the pristine main process before the pool forks
@@ -416,6 +421,7 @@ def write_evidence(check, tier, master, st, violations, extra=None):
         real_components=check.REAL,
         stub_components=check.STUBS,
         harness_errors=len(st.harness_errors),
+        distinct_sets={k: len(v) for k, v in sorted(st.sets.items())},
         exhaustive=False,
     )
     if extra:
